@@ -185,7 +185,9 @@ MV gen_scalar(Src& s, const GenOpts& o) {
 static MV gen_rec(Src& s, const GenOpts& o, int depth, int& budget) {
   budget--;
   bool can_nest = depth < o.max_depth && budget > 0;
-  size_t kind = s.weighted({45, (unsigned)(can_nest ? 28 : 6), (unsigned)(can_nest ? 27 : 6)});
+  size_t kind = (depth == 0 && o.prefer_container_root && can_nest)
+                    ? s.weighted({10, 45, 45})
+                    : s.weighted({45, (unsigned)(can_nest ? 28 : 6), (unsigned)(can_nest ? 27 : 6)});
   if (kind == 0) return gen_scalar(s, o);
   size_t n;
   if (!can_nest) n = 0;
